@@ -371,3 +371,59 @@ func cliCloseWhileWritingProbe(v6 bool, rounds int) string {
 	}
 	return ""
 }
+
+// Probes "schedule after an aborted call" and "schedule after a read error" of oracle c12
+// (virtual time).  The schedule of a call - transmissions at 0, T, 3T, ..., the
+// no-response error at T x (2^n - 1) - is a function of T and n alone: not of how an
+// EARLIER call on the same client ended (seeded change C12-8: the backoff kept in a client
+// field that an aborted call leaves behind), and not of a transient error the connection
+// reported to the receive loop, which ends the loop and nothing else (seeded change
+// C12-12: the receive loop "failing fast" by shutting the client down).
+func cliScheduleProbe(v6 bool, readError bool) string {
+	var what string
+	const T = 400 * time.Millisecond
+	status := inBubble(20*time.Second, func() {
+		start := time.Now()
+		conn := cli_newScriptConn(func() int64 { return int64(time.Since(start)) })
+		cl := newClient(v6, conn, T, 3, -1)
+		x := uint32(cliMXidBase + 9)
+		never := func(class byte, idx int) bool { return false }
+		if readError {
+			go func() {
+				time.Sleep(100 * time.Millisecond)
+				conn.inject(cliReadErrMarker)
+			}()
+		} else {
+			// the earlier call: cancelled in the middle of its third try
+			ctx, cancel := context.WithTimeout(context.Background(), 2*time.Second)
+			out := cl.call(ctx, x, never, false)
+			cancel()
+			if out != "ctx" {
+				what = "a call under a context that expires in the middle of its third try ended with " + out
+				return
+			}
+			time.Sleep(50 * time.Millisecond)
+		}
+		sent0 := len(conn.snapshot())
+		t0 := time.Now()
+		out := cl.call(context.Background(), x+1, never, false)
+		ws := conn.snapshot()[sent0:]
+		var at []string
+		for _, w := range ws {
+			at = append(at, (time.Duration(w.t) - t0.Sub(start)).String())
+		}
+		got := fmt.Sprintf("%s after %v, transmissions at %v", out, time.Since(t0), at)
+		if want := "noresp after 2.8s, transmissions at [0s 400ms 1.2s]"; got != want {
+			if readError {
+				what = "a call (T=400ms, 3 tries, nobody answers) during which the connection reported one transient read error to the receive loop: " + got + "; want " + want
+			} else {
+				what = "a call (T=400ms, 3 tries, nobody answers) made after an earlier call on the same client was cancelled in its third try: " + got + "; want " + want
+			}
+		}
+		cl.close()
+	})
+	if status != "ok" && what == "" {
+		what = "schedule probe: bubble ended with " + status
+	}
+	return what
+}
